@@ -92,7 +92,13 @@ where
         &self,
         symbol: impl Borrow<Self::Symbol>,
     ) -> Option<(Self::Probability, <Self::Probability as BitArray>::NonZero)> {
-        let symbol = symbol.borrow().as_();
+        let symbol_usize = *symbol.borrow();
+        let symbol: Probability = symbol_usize.as_();
+        if symbol.to_usize() != Some(symbol_usize) {
+            // `symbol` doesn't fit into `Probability`, so it is certainly outside of the
+            // support (don't let it alias an in-support symbol after narrowing).
+            return None;
+        }
         let left_cumulative = symbol.wrapping_mul(&self.probability_per_bin.get());
 
         #[allow(clippy::comparison_chain)]
